@@ -29,7 +29,9 @@ Hosts == {<<47, 47, 97, 46, 46, 98>>, <<47, 47, 49, 46, 50, 46, 51, 46, 52>>, <<
           <<47, 47, 49, 46, 50, 46, 51, 46, 52, 58, 56, 48>>, <<47, 47>>,
           <<47, 47, 223, 46, 99>>, <<47, 47, 955, 962, 46, 99>>}      \* hosts the IDNA mapping rewrites ("\u00df.c", "\u03bb\u03c2.c")
 HostRows == /\ scheme \in {<<104, 116, 116, 112>>, <<>>} /\ auth \in Hosts
-            /\ segs \in {<<>>, << <<97>> >>, << <<>>, <<97>> >>}
+            (* ... and paths that begin with empty segments ("//", "///+", "//:"): under an empty authority the text *)
+            (* starts "////"                                                                                         *)
+            /\ segs \in {<<>>, << <<97>> >>, << <<>>, <<97>> >>, << <<>>, <<>> >>, << <<>>, <<>>, <<43>> >>, << <<>>, <<58>> >>}
             /\ pairs \in {<<>>, << <<<<97>>, <<98>>>> >>}
             /\ frag \in {<<>>, <<102>>}
 Init == /\ (Core \/ Escapes \/ HostRows)
